@@ -14,34 +14,31 @@ Definition only_leaves : oquirks := Build_oquirks false true false false false.
 Definition only_consts : oquirks := Build_oquirks false false true false false.
 Definition only_reuse : oquirks := Build_oquirks false false false true false.
 
-(* lint the directory, delete a file, lint again: the deleted file's blocks are still reported *)
+(* REGRESSION (finding q_dry_keeps_storage, fixed by 8b82489): lint the directory, delete a file, lint again - under the
+   vector claimed for the current tree every call now returns what a fresh object returns *)
 Definition w_delete : list op := [ApiLint (TDir 0 [0; 1; 2]); Delete 1; ApiLint (TDir 0 [0; 2])].
-Theorem C08_dry_storage_refuted :
-  sym_run [] w_ign 9 w_dirs only_dry w_fs w_delete <> sym_fresh_run [] w_ign 9 w_dirs only_dry w_fs w_delete
-  /\ sym_run [] w_ign 9 w_dirs orch_actual w_fs w_delete <> sym_fresh_run [] w_ign 9 w_dirs orch_actual w_fs w_delete.
-Proof. split; vm_compute; discriminate. Qed.
+Example C08_dry_storage_regression :
+  sym_run [] w_ign 9 w_dirs orch_actual w_fs w_delete = sym_fresh_run [] w_ign 9 w_dirs orch_actual w_fs w_delete
+  /\ sym_run [] w_ign 9 w_dirs only_dry w_fs w_delete = sym_fresh_run [] w_ign 9 w_dirs only_dry w_fs w_delete.
+Proof. split; vm_compute; reflexivity. Qed.
 
-(* Linter.lint(file) / Orchestrator.lint_file leave their evidence behind: the next batch run reports it *)
+(* Orchestrator.lint_file leaves its evidence behind: the next batch run reports it (still present) *)
 Definition w_single : list op := [LintFile 0; LintFiles [1]].
 Theorem C08_lintfile_evidence_refuted :
   sym_run [] w_ign 9 w_dirs only_leaves w_fs w_single <> sym_fresh_run [] w_ign 9 w_dirs only_leaves w_fs w_single
   /\ sym_run [] w_ign 9 w_dirs orch_actual w_fs w_single <> sym_fresh_run [] w_ign 9 w_dirs orch_actual w_fs w_single.
 Proof. split; vm_compute; discriminate. Qed.
 
-(* the duplicate-constant report sees its evidence in processing order: with reports that are permutation-invariant
-   for blocks and stringly-typed (here: empty) and an order-revealing constants report, two orders of the same file
-   list give results that are not permutations of one another *)
+(* REGRESSION (finding q_consts_in_processing_order, fixed by 5ce39e3): two orders of the same file list give the same
+   duplicate-constant report under the vector claimed for the current tree *)
 Definition w_order_a : list op := [LintFiles [0; 1; 2]].
 Definition w_order_b : list op := [LintFiles [2; 1; 0]].
 Definition run_c (q : oquirks) (h : list op) : list (list tok) :=
-  map out_all (snd (run tok sym_pf (fun _ _ => []) (sym_rep 1) (fun _ => []) (fun _ => false) (fun _ _ => false) 9 (tbl_in_dir w_dirs) q (init_st None, w_fs) h)).
-Theorem C08_consts_order_refuted :
-  exists a b, run_c only_consts w_order_a = [a] /\ run_c only_consts w_order_b = [b] /\ ~ Permutation a b.
-Proof.
-  eexists. eexists. split; [vm_compute; reflexivity|]. split; [vm_compute; reflexivity|].
-  intros H. apply (Permutation_in (TRep 1 0 [(0, 0); (1, 1); (2, 2)])) in H; [|cbn; tauto].
-  cbn in H. repeat destruct H as [H|H]; try discriminate H. exact H.
-Qed.
+  map out_all (snd (run tok (fun _ _ => []) (fun _ _ => []) (sym_rep 1) (fun _ => []) (fun _ => false) (fun _ _ => false) 9 (tbl_in_dir w_dirs) q (init_st None, w_fs) h)).
+Example C08_consts_order_regression :
+  run_c orch_actual w_order_a = run_c orch_actual w_order_b /\ run_c only_consts w_order_a = run_c only_consts w_order_b
+  /\ run_c orch_actual w_order_a = [[TRep 1 0 [(0, 0); (1, 1); (2, 2)]]].
+Proof. repeat split; vm_compute; reflexivity. Qed.
 
 (* a new Linter built in the same process after the ignore file changed keeps the patterns (and decisions) of the old one:
    path 1 is ignored by the new version of the ignore file, yet still linted *)
